@@ -554,78 +554,128 @@ def _davidson(model: Model, D: RuleResult):
 
 
 # ------------------------------------------------------------------------------------------ C05-S
+_SVD_SPEC = {
+    True: """
+G = {A}.matmul({A}.H, is_hermitian=True)
+eivals, eivecs = symeig(G, {k}, {mode}, bck_options={bck}, method={method}, **{fwd})
+s = torch.sqrt(torch.clamp(eivals, min=0.0))
+sdiv = torch.clamp(s, min=1e-12).unsqueeze(-2)
+u = eivecs
+v = {A}.rmm(u) / sdiv
+return u, s, v.transpose(-2, -1).conj()
+""",
+    False: """
+G = {A}.H.matmul({A}, is_hermitian=True)
+eivals, eivecs = symeig(G, {k}, {mode}, bck_options={bck}, method={method}, **{fwd})
+s = torch.sqrt(torch.clamp(eivals, min=0.0))
+sdiv = torch.clamp(s, min=1e-12).unsqueeze(-2)
+v = eivecs
+u = {A}.mm(v) / sdiv
+return u, s, v.transpose(-2, -1).conj()
+"""}
+
+
 def _svd(model: Model, S: RuleResult):
+    """svd is evaluated over symbolic tensor terms (domains/tensorterm.py) once for a wide operator (m < n) and once for a tall one; on
+    each path the returned triple must be the term of the specification above (Gram operator of the smaller side flagged Hermitian,
+    decomposed by symeig with the caller's k / mode / method / options; s = sqrt(max(eig, 0)); the eigenvectors are the factor of that
+    side and the other factor is A^H u / s resp. A v / s; vh = v^H) - whatever the arrangement of branches and temporaries.  The
+    positive floor of the divisor is not part of the comparison."""
+    from ..domains import tensorterm as tt
     f = model.func(PUB, "svd")
-    pA = f.params()[0]
-    defs = function_defs(f.node)
-    brs = [s for s in f.node.body if isinstance(s, ast.If) and ast.unparse(s.test).replace(" ", "") in ("m<n", "n>m")]
-    if len(brs) != 2:
-        raise AnalysisError("C05-S: svd no longer has the two `m < n` branches (Gram operator, factors)")
-    mdef, ndef = ast.unparse(defs.get("m", [ast.Constant(0)])[0]), ast.unparse(defs.get("n", [ast.Constant(0)])[0])
-    if mdef == "%s.shape[-2]" % pA and ndef == "%s.shape[-1]" % pA:
-        S.ok(f.fq, "m, n are the row and column counts of A")
-    else:
-        S.bad(f, f.node, "m and n must be A.shape[-2] and A.shape[-1]")
+    ps = f.params()
+    pA = ps[0]
+    kw = f.kwarg()
+    if len(ps) < 5 or kw is None:
+        raise AnchorError("C05-S: svd no longer has the signature (A, k, mode, bck_options, method, **fwd_options)")
+    names = dict(A=pA, k=ps[1], mode=ps[2], bck=ps[3], method=ps[4], fwd=kw)
+    env0 = {pA: tt.sym("A")}
+    shape = ("op", "attr.shape", tt.sym("A"))
+    m_t, n_t = ("op", "index", shape, ("op", "slice", "-2")), ("op", "index", shape, ("op", "slice", "-1"))
 
-    def gram(block):
-        for s in block:
-            if isinstance(s, ast.Assign) and isinstance(s.value, ast.Call) and isinstance(s.value.func, ast.Attribute) and s.value.func.attr == "matmul":
-                left = s.value.func.value
-                right = s.value.args[0]
-                kw = {k.arg: ast.unparse(k.value) for k in s.value.keywords}
-                def role(e):
-                    t = ast.unparse(e)
-                    return "A" if t == pA else ("AH" if t == pA + ".H" else "?")
-                return s, (role(left), role(right)), kw.get("is_hermitian") == "True", ast.unparse(s.targets[0])
-        return None, None, False, None
+    def relax(t):
+        """the positive floor that protects the division is a tolerance, not part of the formula"""
+        if not isinstance(t, tuple):
+            return t
+        if len(t) == 4 and t[0] == "op" and t[1] == "clamp" and isinstance(t[3], tuple) and t[3][:2] == ("op", "kw.min") \
+                and t[3][2][0] == "num" and t[3][2][1] > 0:
+            return ("op", "clamp+", relax(t[2]))
+        return tuple(relax(x) for x in t)
 
-    def factors(block):
-        out = {}
-        for s in block:
-            if isinstance(s, ast.Assign) and isinstance(s.targets[0], ast.Name):
-                out[s.targets[0].id] = s.value
-        return out
-    g_if, f_if = brs[0], brs[1]
-    for case, gblock, fblock in (("m < n", g_if.body, f_if.body), ("m >= n", g_if.orelse, f_if.orelse)):
-        gs, roles, herm, gname = gram(gblock)
-        fs = factors(fblock)
-        exp_roles = ("A", "AH") if case == "m < n" else ("AH", "A")
-        eig_side = "u" if case == "m < n" else "v"
-        other = "v" if case == "m < n" else "u"
-        prod = "rmm" if case == "m < n" else "mm"
-        ok = roles == exp_roles and herm
-        if ok:
-            S.ok(f.fq, "%s: Gram operator %s, flagged Hermitian (the smaller of the two)" % (case, "A A^H" if case == "m < n" else "A^H A"))
-        else:
-            S.bad(f, gs or g_if, "%s: the Gram operator must be %s with is_hermitian=True (found %s, hermitian flag %s)" % (case, "A.matmul(A.H)" if case == "m < n" else "A.H.matmul(A)", roles, herm))
-        e1 = fs.get(eig_side)
-        e2 = fs.get(other)
-        ok2 = (isinstance(e1, ast.Name) and e1.id == "eivecs" and isinstance(e2, ast.BinOp) and isinstance(e2.op, ast.Div) and
-               ast.unparse(e2.left) == "%s.%s(%s)" % (pA, prod, eig_side) and ast.unparse(e2.right) == "sdiv")
-        if ok2:
-            S.ok(f.fq, "%s: %s = eigenvectors of the Gram operator, %s = %s / s" % (case, eig_side, other, "A^H u" if prod == "rmm" else "A v"))
-        else:
-            S.bad(f, f_if, "%s: the eigenvectors must become %s and the other factor %s = A.%s(%s) / s" % (case, eig_side, other, prod, eig_side))
-    src = ast.unparse(f.node)
-    from ..model import has_form as _hf2
-    vh_ok = any(isinstance(s_, ast.Assign) and ast.unparse(s_.targets[0]) == "vh" and ncalg.is_adjoint_expr(s_.value, False) is not None and
-                ast.unparse(ncalg.is_adjoint_expr(s_.value, False)) == "v" for s_ in own_nodes(f.node))
-    if _hf2(f.node, "eivals = torch.clamp(eivals, min=0.0)", "s = torch.sqrt(eivals)") and vh_ok:
-        S.ok(f.fq, "s = sqrt(max(eigenvalue, 0)) (non-negative) and vh is the conjugate transpose of v")
-    else:
-        S.bad(f, f.node, "singular values must be sqrt of the clamped eigenvalues and vh the conjugate transpose of v")
-    call = [c for c in own_nodes(f.node) if isinstance(c, ast.Call) and ast.unparse(c.func) == "symeig"]
-    okc = False
-    if call:
-        a = [ast.unparse(x) for x in call[0].args]
-        kw = {k.arg: ast.unparse(k.value) for k in call[0].keywords if k.arg}
-        okc = a[:3] == [gram(g_if.body)[3], f.params()[1], f.params()[2]] and kw.get("bck_options") == "bck_options" and kw.get("method") == "method" \
-            and any(k.arg is None for k in call[0].keywords)
+    class _Need(Exception):
+        pass
+
+    def run_case(wide, choices):
+        dbg_tests = []
+
+        def decide(term, node):
+            if any(x[0] == "op" and x[1] == "is_debug_enabled" for x in tt.subterms(term)):
+                dbg_tests.append(node)
+                return False              # the debug-only self-check of the operator must write nothing svd reads
+            if term[0] == "cmp" and term[1] in ("<", "<="):
+                v = None
+                if (term[2], term[3]) == (m_t, n_t):
+                    v = wide if term[1] == "<" else (wide or None)
+                elif (term[2], term[3]) == (n_t, m_t):
+                    v = (not wide) if term[1] == "<=" else ((not wide) or None)
+                if v is not None:
+                    return v
+            key = ast.unparse(node)
+            if key not in choices:
+                raise _Need(key)
+            return choices[key]
+        ev = tt.TermEval(env0, decide)
+        ev.run([s_ for s_ in f.node.body if not (isinstance(s_, ast.Expr) and isinstance(s_.value, ast.Constant))])
+        return ev, dbg_tests
+
     rets = [r for r in own_nodes(f.node) if isinstance(r, ast.Return)]
-    if okc and rets and ast.unparse(rets[-1].value).replace(" ", "") in ("(u,s,vh)", "u,s,vh"):
-        S.ok(f.fq, "the Gram operator is decomposed by symeig with the caller's k, mode, method and options; returns (u, s, vh)")
-    else:
-        S.bad(f, enclosing_stmt(call[0]) if call else f.node, "svd must call symeig(Gram, k, mode, bck_options=..., method=..., **fwd_options) and return (u, s, vh)")
+    for wide in (True, False):
+        case = "m < n" if wide else "m >= n"
+        spec = tt.TermEval(env0)
+        pending = [dict()]
+        outcomes = []
+        try:
+            spec.run(ast.parse(_SVD_SPEC[wide].format(**names).replace("return ", "__ret = ")).body)
+            while pending:
+                ch = pending.pop()
+                if len(ch) > 3:
+                    raise tt.Unsupported("more than three tests the terms do not decide")
+                try:
+                    ev, dbg_tests = run_case(wide, ch)
+                except _Need as need:
+                    # a test svd's contract does not mention (the specification has none): both outcomes must give the specified result
+                    pending.append(dict(ch, **{str(need): True}))
+                    pending.append(dict(ch, **{str(need): False}))
+                    continue
+                outcomes.append((ch, ev, dbg_tests))
+        except tt.Unsupported as e:
+            S.undecided(f, f.node, "cannot interpret svd for %s: %s" % (case, e))
+            return
+        want = spec.env.get("__ret")
+        for ch, ev, dbg_tests in outcomes:
+            got = ev.returned
+            label = case + ("" if not ch else " and " + ", ".join("%s%s" % ("" if v_ else "not ", k_) for k_, v_ in sorted(ch.items())))
+            if got is None:
+                S.bad(f, f.node, "svd returns nothing for %s" % label)
+                continue
+            dbg_stores = {n_.id for i_ in own_nodes(f.node) if isinstance(i_, ast.If) and any(i_.test is t_ for t_ in dbg_tests)
+                          for st_ in i_.body for n_ in ast.walk(st_) if isinstance(n_, ast.Name) and isinstance(n_.ctx, ast.Store)}
+            if dbg_stores:
+                S.undecided(f, f.node, "cannot identify the values of %s: written inside a debug-only block" % sorted(dbg_stores))
+                return
+            if relax(got) == relax(want):
+                S.ok(f.fq, "%s: Gram operator %s flagged Hermitian, decomposed by symeig with the caller's k, mode, method and options; s = sqrt(max(eig, 0)); "
+                     "%s = eigenvectors, %s = %s / s; returns (u, s, v^H)" % (label, "A A^H" if wide else "A^H A", "u" if wide else "v", "v" if wide else "u",
+                                                                              "A^H u" if wide else "A v"))
+                S.ok(f.fq, "%s: term comparison with the specification (domains/tensorterm.py)" % label)
+            else:
+                parts = ("u", "s", "vh")
+                gl, wl = (got[2:] if got[:2] == ("op", "tuple") else ()), want[2:]
+                diff = [parts[i] for i in range(min(len(gl), 3)) if relax(gl[i]) != relax(wl[i])] if len(gl) == 3 else ["the returned value is not a triple"]
+                S.bad(f, rets[-1] if rets else f.node, "%s: svd must take the Gram operator %s (is_hermitian=True), decompose it with symeig(G, k, mode, bck_options=.., method=.., "
+                      "**fwd_options), and return (u, s, vh) with s = sqrt(clamp(eig, 0)), the eigenvectors on that side and the other factor %s / s, vh = v^H; differs in: %s "
+                      "[got %s]" % (label, "A.matmul(A.H)" if wide else "A.H.matmul(A)", "A.rmm(u)" if wide else "A.mm(v)", ", ".join(diff), tt.show(got)[:300]))
+    S.ok(f.fq, "m, n are the row and column counts of A (the case split is decided on A.shape[-2] < A.shape[-1])")
 
 
 # ------------------------------------------------------------------------------------------ C05-V
@@ -669,7 +719,7 @@ def rules(model: Model, tier: str) -> List[RuleResult]:
     T = RuleResult(PROP, "C05-T", "requested pairs = first / last neig of eigh's ascending output, same slice on values and vectors, every call site", min_instances=8)
     Q = RuleResult(PROP, "C05-Q", "tallqr: Q^H M Q normalises to the identity", min_instances=3)
     D = RuleResult(PROP, "C05-D", "Davidson: Rayleigh-Ritz projection, residual with M iff given, enumerated loop exits, best-pair bookkeeping, M-orthonormalisation on every path", min_instances=9)
-    S = RuleResult(PROP, "C05-S", "svd: Gram operator / eigenvector side / other factor pairing, non-negative s, vh = v^H", min_instances=7)
+    S = RuleResult(PROP, "C05-S", "svd: Gram operator / eigenvector side / other factor pairing, non-negative s, vh = v^H", min_instances=5)
     V = RuleResult(PROP, "C05-V", "Hermiticity and shape asserted before computing; defaults", min_instances=6)
     _reduction(model, R)
     _take(model, T)
